@@ -32,7 +32,7 @@ TraceInit ==
     /\ now = 0 /\ up = FALSE /\ verify = FALSE /\ aggmode = "never"
     /\ attjobs = {} /\ prepjobs = {} /\ running = {} /\ pend = {} /\ attested = {} /\ subs = {}
     /\ roots = {} /\ records = {} /\ bids = {} /\ njobs = 0
-    /\ msgrun = {} /\ aucrun = {} /\ subrun = {}
+    /\ msgrun = {} /\ aucrun = {} /\ subrun = {} /\ passes = {}
     /\ env = Env0
     /\ InitHWM
 
@@ -42,7 +42,7 @@ TraceReset ==
     /\ now' = Line.now /\ up' = FALSE /\ verify' = Line.verify /\ aggmode' = Line.agg
     /\ attjobs' = {} /\ prepjobs' = {} /\ running' = {} /\ pend' = {} /\ attested' = {} /\ subs' = {}
     /\ roots' = {} /\ records' = {} /\ bids' = {} /\ njobs' = 0
-    /\ msgrun' = {} /\ aucrun' = {} /\ subrun' = {}
+    /\ msgrun' = {} /\ aucrun' = {} /\ subrun' = {} /\ passes' = {}
     /\ env' = Env0
 
 \* the attestation jobs the driver holds in flight are the running jobs of the specification; likewise the
@@ -52,11 +52,20 @@ RunOK ==
     /\ Has(Line, "msgrun") => S(Line.msgrun) = msgrun'
     /\ Has(Line, "aucrun") => S(Line.aucrun) = aucrun'
     /\ Has(Line, "subrun") => S(Line.subrun) = subrun'
+    /\ Has(Line, "passes") => S(Line.passes) = passes'
 
-TraceStart == IsEvent("Start") /\ Start(Fetched, Post) /\ RunOK
+\* the scheduling passes the step started and the node keeps back: "newpasses" = [e, n] records (the wired driver
+\* numbers the passes of an epoch as the specification does); the fake-based drivers log "held" = the epochs whose
+\* duties request is with the node (one pass per epoch there: n = 1)
+NewPasses ==
+    IF Has(Line, "newpasses") THEN S(Line.newpasses)
+    ELSE IF Has(Line, "held") THEN {[e |-> e, n |-> 1] : e \in S(Line.held)} \ passes
+    ELSE {}
+
+TraceStart == IsEvent("Start") /\ Start(Fetched, NewPasses, Post) /\ RunOK
 TraceTick == IsEvent("Tick") /\ Tick(Post) /\ RunOK
 \* subheld: the epochs whose beacon committee subscription the node keeps back (SubEnd delivers it)
-TracePrepare == IsEvent("Prepare") /\ Prepare(Line.e, Line.fired, Fetched, Fld("subheld", {}), Post) /\ RunOK
+TracePrepare == IsEvent("Prepare") /\ Prepare(Line.e, Line.fired, Fetched, Fld("subheld", {}), NewPasses, Post) /\ RunOK
 TraceSubEnd ==
     /\ IsEvent("SubEnd")
     /\ IF Line.fired THEN SubEnd(Line.e, Post)
@@ -64,10 +73,10 @@ TraceSubEnd ==
     /\ RunOK
 \* also with attestation jobs running, and (split) with the node's reply to the duty request kept back: the
 \* request is logged with this line, the jobs it leads to with the Resched line
-TraceHead == IsEvent("Head") /\ HeadEvent(Fetched, Post) /\ RunOK
+TraceHead == IsEvent("Head") /\ HeadEvent(Fetched, NewPasses, Post) /\ RunOK
 TraceResched ==
     /\ IsEvent("Resched")
-    /\ IF Line.fired THEN Resched({Line.e}, Post)
+    /\ IF Line.fired THEN PassEnd([e |-> Line.e, n |-> IF Has(Line, "n") THEN Line.n ELSE 1], Post)
        ELSE Probe(Post)                         \* the node kept nothing back: nothing may appear
     /\ RunOK
 TraceProbe == IsEvent("Probe") /\ Probe(Post) /\ RunOK
